@@ -88,7 +88,7 @@ def run_case(case, ctx):
 				# every other entry lies directly in the base directory (its list-file line then starts with the file name itself)
 				rel.append(n_ if (i % 2 == 0 and n_ not in rel) else os.path.join(f'qd{i}', n_))
 				gzs.append(gz)
-			qpaths = H.write_genomes(os.path.join(d, 'qbase'), qgen, rel, gz=gzs)
+			qpaths = H.write_genomes(os.path.join(d, 'qbase'), qgen, rel, gz=gzs, softmask=case.get('softmask'))
 			qlabels = [H.expected_label(p) for p in rel]
 			qsigs = H.ref_sigs(qgen, eff[0], eff[1])
 			if qmode == 'q':
@@ -126,7 +126,7 @@ def run_case(case, ctx):
 				n_, gz = nm(i + 11, for_list)
 				rel.append(n_ if (i % 2 == 0 and n_ not in rel) else os.path.join(f'rd{i}', n_))
 				gzs.append(gz)
-			rpaths = H.write_genomes(os.path.join(d, 'rbase'), rgen, rel, gz=gzs)
+			rpaths = H.write_genomes(os.path.join(d, 'rbase'), rgen, rel, gz=gzs, softmask=case.get('softmask'))
 			rlabels = [H.expected_label(p) for p in rel]
 			rsigs = H.ref_sigs(rgen, eff[0], eff[1])
 			if rmode == 'r':
@@ -255,6 +255,7 @@ def gen_case(draw, tier):
 		'prerun': draw(st.sampled_from([False, False, False, True])),
 		'stale_output': draw(st.sampled_from([False, False, True])),
 		'list_cwd': draw(st.sampled_from([None, 'decoy', None, 'implicit'])),
+		'softmask': draw(st.sampled_from([None, 5, None, 13])),
 	}
 	if rmode == 'use_db':
 		case['world'] = draw(Wd.world(max_refs=4, min_refs=1, max_queries=1, nasty_names=False))
